@@ -647,6 +647,15 @@ def _edit_seed_protos(tier):
             if not any(o.domain == "local" for o in f2.opset_import) and any(n.domain == "local" for n in f2.node):
                 f2.opset_import.append(helper.make_opsetid("local", 1))
             m.functions.append(f2)
+            # ... and an overload of the same function (same domain and name) that adds 1 before returning
+            if m.ir_version >= 10:
+                f3 = onnx.FunctionProto()
+                f3.CopyFrom(f)
+                f3.overload = "ov2"
+                last3 = f3.output[0]
+                f3.node.append(helper.make_node("Abs", [last3], [last3 + "_abs"], name=f"{f.name}_ov2_abs"))
+                f3.output[0] = last3 + "_abs"
+                m.functions.append(f3)
         m.opset_import.append(helper.make_opsetid("local2", 1))
         if not any(o.domain == "local" for o in m.opset_import):
             m.opset_import.append(helper.make_opsetid("local", 1))
@@ -686,6 +695,13 @@ def _edits():
                 n.domain = "local2"
                 return True
         return False
+
+    def retarget_overload(m):
+        n = _first(m.graph, lambda n: n.domain == "local" and (n.domain, n.op_type, "ov2") in m.functions)
+        if n is None:
+            return False
+        n.overload = "ov2"
+        return True
 
     def retarget_op_type(m):
         n = _first(m.graph, lambda n: n.domain == "" and n.op_type in _OP_SWAP)
@@ -730,7 +746,7 @@ def _edits():
                     return True
         return False
 
-    return [("retarget_domain", retarget_domain), ("retarget_domain_in_function", retarget_domain_in_function), ("retarget_op_type", retarget_op_type),
+    return [("retarget_overload", retarget_overload), ("retarget_domain", retarget_domain), ("retarget_domain_in_function", retarget_domain_in_function), ("retarget_op_type", retarget_op_type),
             ("set_alpha", set_alpha), ("swap_inputs", swap_inputs), ("rename_value", rename_value), ("redirect_uses", redirect_uses)]
 
 
